@@ -41,6 +41,8 @@ def check(run):
     for k in keys:
         verify.verify(run, c.E, c.contracts[k], crosscheck=False)
     IA.ast_only_writer(run, c.src, "images", "Images", "images", ["add"])
+    # every record of a loaded document of ARBITRARY size is filed through add() (directly or via _add_1_1): witness rule over the loader's loops
+    verify.verify(run, c.E, c.contracts["gate:images.Images.deserialize:any"], crosscheck=False)
     with run.obligation("images.Images.__init__#fresh_manifest_is_current_format", "conc", ["productmd.images.Images.__init__"]) as ob:
         # a manifest that has only been built by add calls is written as a current-format file, so identity uniqueness must already be
         # enforced while it is being built: Images() starts with a header version >= 1.1
